@@ -112,7 +112,27 @@ def use_repo():
         importlib.import_module(name)
         _LIB[name.split(".", 1)[1]] = sys.modules[name]
     _LIB["pkg"] = ctparse
+    # No check may depend on real time: the library's only clock (the deadline / timeit clock)
+    # is virtual in every engine. Checks pass timeout=0 ("no limit"), so a correct tree never
+    # consults it for a decision; a tree that turns timeout=0 into some default budget then
+    # misbehaves deterministically (50 reads per virtual second) instead of "sometimes".
+    _LIB["timers"].perf_counter = DefaultVirtualClock()
     return _LIB
+
+
+class DefaultVirtualClock:
+    """perf_counter stand-in used outside deadline-sim: +0.02 virtual seconds per read."""
+
+    def __init__(self, step=0.02):
+        self.now = 0.0
+        self.step = step
+        self.reads = 0
+
+    def __call__(self):
+        v = self.now
+        self.now = v + self.step
+        self.reads += 1
+        return v
 
 
 # --------------------------------------------------------------------------
